@@ -7,6 +7,17 @@ CONSTANTS
   UKeys = {"u1"}
   UVals = {"p"}
   SKeys = {"s1"}
+  CTypes = {""}
+  CDescs = {""}
+  IKeys = {}
+  IWeights = {}
+  CaKeys = {}
+  CaVals = {}
+  TKeys = {}
+  TVals = {}
+  SrvIds = {}
+  Defect_McpStickyRefs = FALSE
+  Defect_McpRcLostAtSnapshot = FALSE
   HistMax = 100
   MaxLog = 1
   MaxOps = 1
